@@ -220,6 +220,34 @@ _WAVE4 = {
 for _c in CHECKS:
     if _c["property_id"] in _WAVE4:
         _c["text"] = _c["text"] + " " + _WAVE4[_c["property_id"]]
+
+# alphabets added after the fifth wave
+_WAVE5 = {
+ "C01": "Signals running through a leap second; a channel subscript next to a stepped time slice; single-precision sample rates; TAI-scale and unix-format (with location) start times.",
+ "C02": "like() with data of another channel count; single-precision centre / width Quantities.",
+ "C03": "1 GHz rate with shifts in s / ks / ns; shifts beyond 2^63 samples; Fortran-ordered and transposed-view shift arrays.",
+ "C04": "Shifts beyond 2^63 bins; Fortran-ordered and transposed-view shift arrays.",
+ "C05": "DMs chosen per band so that an edge delay is a few 1e-7 above a whole sample.",
+ "C06": "Trivial user-defined subclasses of each radio class.",
+ "C07": "Two-number construction in either order with adversarial magnitudes; targets that are views of the dividend; sibling Angle subclasses (FractionalPhase, Longitude, Latitude) as operands.",
+ "C08": "The same rows selected in another order (p[[3,1,2,0]], p[::-1]).",
+ "C09": "All-out-of-band shifts in the operation catalogue; reader reads whose chunks split the time axis.",
+ "C10": "Channels that are narrow compared with the sky frequency (centre / width 1.4e6 and 3e9).",
+ "C11": "A minimal reader on the public base class running through a leap second; the multi-file sequence under names whose sorted order is not their time order.",
+ "C13": "The same Dask array labelled in both bases with all conversions in one graph.",
+ "C14": "A masked-array input buffer.",
+ "C15": "EVERY decimal with four fractional digits under eight integer parts; strings parsed / rendered under a lowered decimal context and NumPy print options; comparison ufuncs with out=; the NumPy function forms np.min ... np.ptp, np.sort, np.argsort; keepdims (values).",
+ "C16": "Mapping metas that are not dicts.",
+ "C17": "Masked-array data (values and mask).",
+ "C18": "N passed by keyword 300 times in a row; fast_len on masked data.",
+ "C19": "Long axes (4096, 4099, 131072) against a float64 FFT evaluation of the definition; positional / keyword / negative spellings of the axis.",
+ "C20": "s without axes and positional s / axes for the n-D names; float16 input; scipy-only keywords; Quantity input; stft with two trailing axes.",
+}
+for _c in CHECKS:
+    if _c["property_id"] in _WAVE5:
+        _c["text"] = _c["text"] + " " + _WAVE5[_c["property_id"]]
+    if _c["property_id"] == "C07":
+        _c["note"] = _c["note"] + " One known finding (astropy Longitude / Latitude as LEFT operand of + and -: the result is computed by astropy without consulting Phase) is listed in known_findings.jsonl and printed as KNOWN-FINDING."
 _ALL = ["C%02d" % i for i in range(1, 21)]
 NOT_APPLICABLE = [{"property_id": p, "reason": "check not yet built in this session (planned in DESIGN.md; no claim made yet)"}
                   for p in _ALL if p not in {c["property_id"] for c in CHECKS}]
